@@ -228,10 +228,23 @@ func NewMatchField[Int constraints.Integer | *big.Int | ~[]byte, Mask constraint
 		return nil, err
 	}
 	value := conv(data)
+	if value == nil || value.Sign() < 0 {
+		return nil, fmt.Errorf("invalid data: nil or negative")
+	}
 	length := field.Length
 	if len(mask) > 0 {
 		var maskInt *big.Int
 		length /= 2
+		// the window must lie inside the field: no negative or oversized offset / width
+		fieldBits := uint64(length) * 8
+		for _, m := range mask {
+			if m < 0 || uint64(m) > fieldBits {
+				return nil, fmt.Errorf("invalid mask: %d is outside the %d-bit field", m, fieldBits)
+			}
+		}
+		if len(mask) > 1 && (mask[1] == 0 || uint64(mask[0])+uint64(mask[1]) > fieldBits) {
+			return nil, fmt.Errorf("invalid mask: window [%d,+%d) is outside the %d-bit field", mask[0], mask[1], fieldBits)
+		}
 		if len(mask) != 3 || mask[2] == 1 {
 			value = value.Lsh(value, uint(mask[0]))
 		}
@@ -244,7 +257,13 @@ func NewMatchField[Int constraints.Integer | *big.Int | ~[]byte, Mask constraint
 		if value.Cmp(maskValue) != 0 {
 			return nil, fmt.Errorf("invalid mask and data")
 		}
+		if maskInt.BitLen() > int(length)*8 {
+			return nil, fmt.Errorf("invalid mask: wider than the %d-byte field", length)
+		}
 		field.Mask = big2byte(maskInt, length)
+	}
+	if value.BitLen() > int(length)*8 {
+		return nil, fmt.Errorf("invalid data: wider than the %d-byte field", length)
 	}
 	field.Value = big2byte(value, length)
 	return field, nil
